@@ -539,6 +539,40 @@ Proof.
   vm_compute. repeat match goal with |- _ /\ _ => split end; try reflexivity; discriminate.
 Qed.
 
+(** * Instant -> offset on a composite zone: the binary search before the last transition
+    (C05_offset_at_before_last), the rule from it on (C05_offset_at_rule), joined by continuity *)
+Lemma last_trans_last_of (tr : list (Z * Z)) : last_trans tr = last_of (map fst tr).
+Proof. unfold last_trans, last_of. rewrite <- map_rev. destruct (rev tr) as [|[ti o] r]; reflexivity. Qed.
+Lemma offs_fst ps : map fst (offs ps) = map fst ps.
+Proof. unfold offs. rewrite map_map. reflexivity. Qed.
+
+Theorem offset_at_composite z ps first a tl pv ol t :
+  let r := conv_rule a in
+  let cz := mk_szone (ut_offset first) (offs ps) (Some (inr r)) in
+  table_zone z ps first -> leap_seconds z = [] -> extra_rule z = Some (Alternate a) ->
+  increasing (offs ps) = true -> zlen (transitions z) < 4611686018427387904 ->
+  last_window (offs ps) (ut_offset first) = Some (tl, pv, ol) -> roff r tl = ol ->
+  (tl <= t -> rule_hyps a t) ->
+  exists lt, find_local_time_type z t = Val (Ok lt) /\ zone_off cz t = Some (ut_offset lt).
+Proof.
+  intros r cz Hz Hleap Hr Hinc Hlen Hlw Hc Hrule.
+  unfold cz. rewrite (zone_off_composite _ _ _ _ _ _ t Hinc Hlw Hc).
+  (* the model's last transition is the table's *)
+  assert (Hlast : exists lst, last_of (transitions z) = Some lst /\ tr_time lst = tl).
+  { pose proof (last_window_last_trans _ _ _ _ _ Hlw) as H.
+    rewrite last_trans_last_of, offs_fst, <- (resolved_times _ _ _ (tz_res _ _ _ Hz)), last_of_map in H.
+    destruct (last_of (transitions z)) as [lst|]; [|discriminate]. injection H as H. exists lst. auto. }
+  destruct Hlast as (lst & Hlst & Htl).
+  destruct (t <? tl) eqn:E.
+  - destruct (find_local_time_type_table z ps first t Hz Hleap Hinc Hlen) as (lt & H1 & H2).
+    { right. exists lst. split; [exact Hlst|lia]. }
+    exists lt. split; [exact H1|]. rewrite H2. reflexivity.
+  - rewrite (offset_at_rule z a t Hleap Hr).
+    + eexists. split; [reflexivity|]. unfold roff. fold r. destruct (rule_is_dst r t); reflexivity.
+    + right. exists lst. split; [exact Hlst|lia].
+    + apply Hrule. lia.
+Qed.
+
 (** * A table followed by a FIXED footer (zones that abolished daylight time: "JST-9", "<+03>-3"):
     the continuity condition is that the footer's offset is the offset after the last transition;
     the composite zone then has the offset function of its table *)
